@@ -252,7 +252,7 @@ var c16Ladder = []float64{-100, 0, 0.5, 5, 1e3, 1e9}
 
 func c16(r *rep.Run) {
 	max := 6
-	r.SetBudget(150e9)
+	r.SetBudget(300e9)
 	if r.Thorough() {
 		max = 8
 		r.SetBudget(1800e9)
